@@ -18,8 +18,9 @@ func DefaultNumGoroutines() int {
 	// Use the number of physical cores as the default instead of
 	// the number of virtual cores, which GOMAXPROCS
 	// is. Hyperthreading doesn't actually help our workload, and
-	// indeed it hurts it a bit.
-	if physicalCores < numGoroutines {
+	// indeed it hurts it a bit. PhysicalCores is 0 if it couldn't
+	// be detected.
+	if physicalCores > 0 && physicalCores < numGoroutines {
 		numGoroutines = physicalCores
 	}
 	return numGoroutines
